@@ -238,7 +238,13 @@ func obsEnc(b []byte, cls string) string {
 }
 
 func (ru *run) addEnc(tc *tcase, val bool, vterm string, b []byte, cls string) {
-	ru.cf.Add(fmt.Sprintf("CEnc %s %s %s %s", vx.Bool(val), tc.name, vterm, obsEnc(b, cls)))
+	o := obsEnc(b, cls)
+	if cls != "" && cls != "PANIC" && strings.Count(vterm, "VMap [(") > 0 && multiEntryMap(vterm) {
+		// which entry's error comes first depends on Go's map iteration order: only "some error" is comparable
+		o = "OEErrAny"
+		ru.st.Count("enc:error-with-multi-entry-map")
+	}
+	ru.cf.Add(fmt.Sprintf("CEnc %s %s %s %s", vx.Bool(val), tc.name, vterm, o))
 	ru.st.CaseIndex = append(ru.st.CaseIndex, map[string]any{"op": "enc", "type": tc.idx, "val": val, "value": clip(vterm), "out": clsOr(cls, b)})
 	ru.st.Case(hashOf(tc.sch+vterm+vx.Bool(val)), tc.eff.K >= KPtr)
 	ru.st.Count("enc:" + clsName(cls))
@@ -786,7 +792,11 @@ func (ru *run) c02(tc *tcase, nvals int, known *[]string) {
 			}
 			ru.addDec(tc, val, in, d)
 			limit := uint64(64*1024 + 64*len(in))
-			if d.alloc > limit && !(tc.sh.HasZero && d.cls == "EUnbounded") {
+			if d.alloc > limit && tc.sh.HasZero {
+				// the per-iteration allocations of a zero-size-element loop driven by the count alone: finding D02d
+				addKnown(known, "D02d-zero-size-element-iterations")
+				ru.st.Count("c02:alloc-zero-size-loop")
+			} else if d.alloc > limit {
 				// re-measure once (GC / runtime noise)
 				d2 := doDecode(tc.sh, tc.eff.T, in, val, true)
 				if d2.alloc > limit {
@@ -1061,6 +1071,33 @@ func hasSaturatedTime(n *Node, v reflect.Value, depth int) bool {
 				if a.N.T == d.Type() {
 					return hasSaturatedTime(a.N, d, depth+1)
 				}
+			}
+		}
+	}
+	return false
+}
+
+// multiEntryMap: the printed value contains a map with at least two entries ("(VMap [(k, v); (k, v)" ...)
+func multiEntryMap(vterm string) bool {
+	for i := 0; i+6 <= len(vterm); i++ {
+		if vterm[i:i+6] != "(VMap " {
+			continue
+		}
+		// scan the bracket that follows for a top-level ';'
+		depth, j := 0, i+6
+		for ; j < len(vterm); j++ {
+			switch vterm[j] {
+			case '[', '(':
+				depth++
+			case ']', ')':
+				depth--
+			case ';':
+				if depth == 1 {
+					return true
+				}
+			}
+			if depth == 0 && j > i+6 {
+				break
 			}
 		}
 	}
